@@ -19,11 +19,11 @@ CHECKS = {
              text="For every accepted input of generated ambiguous grammars the set of trees denoted by the ambiguity='explicit' result is compared with all shaped reference derivations (acyclic) or validated as derivations within a step budget (cyclic); CollapseAmbiguities is checked against an independent expander.",
              note='Trusts reference chart/enumerator/shaper; inputs with >300 derivations are skipped and counted.', ref='4 C04'),
  'C05': dict(level='exploration', technique='runtime monitor: priority optimum vs reference enumeration; determinism by re-execution across calls, instances and PYTHONHASHSEED processes',
-             text="The tree returned under ambiguity='resolve' is checked to be a derivation whose total priority is the reference optimum (normal/invert), to respect the empty-alternative precedence, and to be bit-identical across repeated calls, fresh instances and fresh processes under several hash seeds.",
-             note='Hash seeds are sampled (4 quick / 16 thorough). Optimum judged only on acyclic grammars without directly empty alternatives, as the statement says.', ref='4 C05'),
- 'C06': dict(level='exploration', technique='runtime monitor: every token/meta coordinate recomputed from the buffer (R6) + LineCounter.feed contract',
-             text='Every token of every accepted parse (5 parser/lexer pairs, str and bytes) is checked against the buffer slice and newline arithmetic; every tree node meta against the first/last token of the same node in a keep_all_tokens parse. Newline-capable terminal spellings are enumerated in the generator.',
-             note='Trusts newline counting on the buffer; meta oracle assumes keep_all_tokens keeps the rule structure of the unambiguous template grammars.', ref='4 C06'),
+             text="The tree returned under ambiguity='resolve' is checked to be a derivation whose total priority is the reference optimum (normal/invert), to respect the empty-alternative precedence, and to be bit-identical across repeated calls, fresh instances (earlier ones kept alive, so that address-dependent orders show) and fresh processes under several hash seeds.",
+             note='Hash seeds are sampled (4 quick / 8 thorough). Optimum judged only on acyclic grammars without directly empty alternatives, as the statement says.', ref='4 C05'),
+ 'C06': dict(level='exploration', technique='runtime monitor: every token/meta coordinate recomputed from the buffer (R6); node meta vs the span of the reference derivation node (filtered tokens included) on generated EBNF grammars; LineCounter.feed contract',
+             text='Every token of every accepted parse (5 parser/lexer pairs, str and bytes) is checked against the buffer slice and newline arithmetic; every tree node meta against the first/last token of the same node in a keep_all_tokens parse and, on generated EBNF grammars with every shaping feature, against the span of the node in the reference derivation. Newline-capable terminal spellings are enumerated in the generator.',
+             note='Trusts newline counting on the buffer and the reference enumerator/shaper for spans (single-derivation inputs only). Known finding F-C06-1 (?-rule collapsing to a token).', ref='4 C06'),
  'C07': dict(level='exploration', technique='differential runtime monitor: Lark.lex token stream vs reference lexer written from the documented precedence; basic vs contextual trees',
              text='Token streams of the basic lexer over generated terminal sets (strings/regexps/priorities/flags, up to 150 terminals) are compared with a reference lexer implementing the documented order and keyword exception; on grammars with disjoint regexps the contextual lexer must return the same tree whenever basic succeeds.',
              note='Trusts CPython re / regex on a single terminal; all unbounded regexps have equal width.', ref='4 C07'),
@@ -45,7 +45,7 @@ CHECKS = {
  'C13': dict(level='exploration', technique='runtime monitor over fork histories of InteractiveParser handles: per-handle result vs parse() of its own text, re-canonicalisation of earlier results after every later operation, accepts() vs trial feeds and reference automaton, resume_parse vs manual feed / blanked text',
              text='Random fork trees (copy, copy.copy, as_immutable, as_mutable, immutable feed_token; forks after every prefix; diverging continuations; accepts()/choices() interleaved; random finishing order) on generated LALR grammars with inlined left-recursive lists, ?-rules, placeholders, propagate_positions and an embedded list-returning transformer. Every handle must end with exactly the parse() result of its own token sequence and no earlier result may change afterwards.',
              note='Expected values come from Lark.parse itself (judged by C02/C03). resume == parse of the blanked text only when the parser had not reduced on the bad lookahead; otherwise == manual feeding from a fork of the same state.', ref='4 C13'),
- 'C14': dict(level='exploration', technique='differential runtime monitor: scan() vs a leftmost-longest emulation built from public parse()/parse_interactive() calls on TextSlice windows; metamorphic bytes/window variants',
+ 'C14': dict(level='exploration', technique='differential runtime monitor: scan() vs a leftmost-longest emulation built from public parse()/parse_interactive() calls on TextSlice windows at every candidate position (where a start terminal matches); metamorphic bytes/window variants',
              text='For every generated text (sentences, near misses and junk with hostile joints) scan() must return exactly the list of (start, end, value) that an O(n^2) emulation finds by trying every start offset and every in-context token end with the real parse(); values include all token coordinates and meta in full-text coordinates; matches must be ordered, disjoint, bounded by their own first/last token, and invariant under bytes input and under embedding in a larger buffer.',
              note='A snippet counts as parseable from p only if its tokens are a prefix of the in-context token stream from p (scan lexes in context). Text length <= 40.', ref='4 C14'),
  'C15': dict(level='exploration', technique='metamorphic runtime monitor: str vs bytes vs TextSlice windows of hostile buffers, canonical outcomes compared after the coordinate shift the statement prescribes',
